@@ -12,8 +12,42 @@ def jOptI : Option Int → Json
   | none => Json.null
   | some v => jI v
 
+def getIdx? (j : Json) : Option Idx := do
+  match ← fStr? j "k" with
+  | "int" => some (.int (← fInt? j "i"))
+  | "slice" => some (.slice ⟨← optInt? j "start", ← optInt? j "stop", ← optInt? j "step"⟩)
+  | "none" => some .newaxis
+  | "ellipsis" => some .ellipsis
+  | _ => none
+
+def getNShape? (j : Json) : Option NShape := do
+  let l ← getList? j
+  match l with
+  | [] => some (.plain [])
+  | x :: _ =>
+    match x with
+    | .arr _ => do some (.nested (← l.mapM getNats?))
+    | _ => do some (.plain (← l.mapM getNat?))
+
 def handler : Handler := fun op j =>
   match op with
+  | "indexed_shape" => do
+    let shape ← fNats? j "shape"
+    let idx ← (← fList? j "idx").mapM getIdx?
+    let spec := match indexSpec shape idx with
+      | some r => jNs r
+      | none => Json.null
+    match indexedShape shape idx with
+    | some r => some (ok (jObj [("shape", jNs r), ("spec", spec)]))
+    | none => some (jObj [("err", jS "value"), ("spec", spec)])
+  | "collapse" => do
+    let shapes ← (← fList? j "shapes").mapM getNShape?
+    let allow ← fBool? j "allow"
+    let sizes := jNs (shapes.map shapeToSize)
+    match collapseShapes shapes allow with
+    | some (.stacked d) => some (ok (jObj [("collapsed", jB true), ("shape", jNs d), ("sizes", sizes)]))
+    | some (.blocked bs) => some (ok (jObj [("collapsed", jB false), ("shape", jArr (bs.map jNs)), ("sizes", sizes)]))
+    | none => some (jObj [("err", jS "value"), ("sizes", sizes)])
   | "slice" => do
     let n ← fNat? j "n"
     let sl : PySlice := ⟨← optInt? j "start", ← optInt? j "stop", ← optInt? j "step"⟩
